@@ -683,7 +683,12 @@ func coordinate(c Check, units []Unit, tier string, seed int64, nw, budget int, 
 	if exit != 2 {
 		os.MkdirAll(filepath.Join(Root, "evidence"), 0o755)
 		j, _ := json.MarshalIndent(ev, "", " ")
-		os.WriteFile(filepath.Join(Root, "evidence", c.ID+".json"), append(j, '\n'), 0o644)
+		name := c.ID + ".json"
+		if only != "" {
+			// a run restricted to some units (development) never replaces the check's evidence
+			name = c.ID + ".partial.json"
+		}
+		os.WriteFile(filepath.Join(Root, "evidence", name), append(j, '\n'), 0o644)
 	}
 	fmt.Printf("%s tier=%s units=%d evaluations=%d distinct=%d states=%d transitions=%d exhaustive=%v violations=%d known=%d wall=%.1fs\n",
 		c.ID, tier, len(order), tot.Evaluations, tot.Distinct, tot.States, tot.Transitions, cov["exhaustive"], nviol, len(knownPrinted), wall)
